@@ -239,17 +239,34 @@ def r3_extension_returns_cursor(repo=None):
                 ctr = c0.children[0].path()
                 starts0 = any(p == ctr and rhs is not None and rhs.intval() == 0 for p, n_, rhs, k in clib.stores(fn)) or any(
                     d.name == ctr and d.children and d.children[-1].intval() == 0 for d in fn.find("VarDecl"))
-                guarded = False
-                for a in lp.ancestors():
-                    if a.kind == "IfStmt":
-                        in_then = a.children[1].begin <= lp.begin <= a.children[1].end
-                        for x in a.children[0].walk():
-                            if x.kind == "BinaryOperator" and x.children[0].path() == bound:
-                                v = x.children[1].intval()
-                                if in_then and x.opcode in (">", ">=") and (v or 0) >= 1:
-                                    guarded = True
-                                if not in_then and x.opcode in ("<=", "<") and v is not None and v >= 1:
-                                    guarded = True  # else-branch of `X <= 1 || ...`
+                # every path from the entry to the loop head crosses a branch edge that implies `bound >= 1` (an enclosing if, its
+                # else branch, or an early return taken when the bound is small): decided on the CFG, not on the nesting
+                def implies(e, lab):
+                    e = e.strip()
+                    if e.kind == "UnaryOperator" and e.opcode == "!":
+                        return implies(e.children[0], "F" if lab == "T" else "T")
+                    if e.kind == "BinaryOperator" and e.opcode == "||":
+                        return lab == "F" and any(implies(x, "F") for x in e.children)
+                    if e.kind == "BinaryOperator" and e.opcode == "&&":
+                        return lab == "T" and any(implies(x, "T") for x in e.children)
+                    if e.kind == "BinaryOperator" and e.children[0].path() == bound:
+                        v = e.children[1].intval()
+                        if v is None:
+                            return False
+                        if lab == "T":
+                            return (e.opcode == ">" and v >= 0) or (e.opcode == ">=" and v >= 1)
+                        return (e.opcode == "<=" and v >= 0) or (e.opcode == "<" and v >= 1) or (e.opcode == "==" and v == 0)
+                    return False
+                heads = [n for n in g.nodes if n.kind == "cond" and n.ast is not None and n.ast.begin == c0.begin]
+                nodes_by_id = {n.id: n for n in g.nodes}
+
+                def keep_edge(a, b, lab):
+                    na = nodes_by_id.get(a)
+                    if na is None or na.kind != "cond" or na.ast is None or lab not in ("T", "F"):
+                        return True
+                    return not implies(na.ast, lab)
+                free = g.reach([g.entry.id], edge_filter=keep_edge)
+                guarded = bool(heads) and not any(h.id in free for h in heads)
                 if guarded and starts0:
                     cn = [n for n in g.nodes if n.kind == "cond" and n.ast is not None and n.ast.begin == c0.begin]
                     ln.extend(x.id for x in cn)
